@@ -15,7 +15,7 @@ import json, os, re, shutil, subprocess, sys, time
 VERIF = os.path.dirname(os.path.dirname(os.path.abspath(__file__)))
 
 
-def sh(cmd, cwd=None, env=None, timeout=1800):
+def sh(cmd, cwd=None, env=None, timeout=5400):
     e = dict(os.environ)
     e["CARGO_NET_OFFLINE"] = "true"
     if env:
